@@ -20,6 +20,9 @@ FIRST = {
     "C09-2": "caught (replay)", "C10-2": "caught (replay)", "C11-2": "broken correspondence, no-failing-input-found", "C12-2": "caught (replay)",
     "C13-2": "missed", "C14-2": "broken correspondence, no-failing-input-found", "C15-2": "caught (replay)",
     "C16-2": "missed", "C17-2": "missed", "C18-2": "missed", "C19-2": "caught (replay)", "C20-2": "caught (replay)",
+    # round 3 (seeds told what rounds 1 and 2 had taken, and hinted at units / origins / orderings / boundary values / histories)
+    "C01-3": "caught (replay)", "C02-3": "caught (replay)", "C03-3": "caught (replay)", "C04-3": "caught (replay)", "C05-3": "missed",
+    "C06-3": "missed", "C07-3": "missed", "C08-2": "caught (replay)",
 }
 
 
